@@ -267,7 +267,7 @@ Proof.
 Qed.
 
 Lemma wf_question_b_spec q : wf_question_b q = wf_question q.
-Proof. destruct q as [e s|e m g|e k]; destruct e; reflexivity. Qed.
+Proof. destruct q as [e s al|e m g|e k]; destruct e; reflexivity. Qed.
 
 (* under the guard, the subject clause holds of every caller in every run of the wrapper model *)
 Theorem monitor_subject_accepts_model tr w t :
